@@ -131,6 +131,11 @@ def run_cases(run, scs, judge, arity, mode="phase"):
 
 
 
+# injected API faults: every kind but "lost" fails the request before any effect and differs in the status returned
+# (500 generic, 500 "failed calling webhook", 409 Conflict, ServerTimeout, 503); "lost" = effect + lost response
+FAULT_KINDS = ("err", "lost", "webhook", "conflict", "timeout", "unavailable")
+
+
 def fault_stage(run, pid, tier, seed, results, judge, identity, only=None):
     """API faults and lost responses inside a pass (crash points): every request of a sample of the scenarios fails
     without effect ("err") or takes effect with its response lost ("lost").  The model has no faults, so only the
@@ -141,12 +146,14 @@ def fault_stage(run, pid, tier, seed, results, judge, identity, only=None):
         if sc.get("between") or not obs.get("requests"):
             continue
         for i, q in enumerate(obs["requests"]):
-            for kind in ("err", "lost"):
+            for kind in FAULT_KINDS:
+                if kind == "conflict" and " dry " in q + " ":
+                    continue   # a 409 of the dry run is a preflight violation, judged by C11's dry-run fault stage
                 cands.append((sc, i, kind, q.split()[0]))
     rng.shuffle(cands)
     # reads first: a failed read is where a reconciler may go on with a stale or missing picture
     cands.sort(key=lambda c: 0 if c[3] in ("get", "list") else 1)
-    n = 500 if tier == "quick" else 6000
+    n = 700 if tier == "quick" else 8000
     reads = [c for c in cands if c[3] in ("get", "list")][: n // 2]
     writes = [c for c in cands if c[3] not in ("get", "list")][: n - len(reads)]
     scs = [dict(sc, faults=[{"req": i, "kind": kind}]) for sc, i, kind, _ in reads + writes]
@@ -201,10 +208,10 @@ def dryrun_fault_stage(run, pid, tier, seed, results, identity):
             continue
         for i, q in enumerate(obs["requests"]):
             if " dry " in q + " ":
-                for kind in ("err", "lost"):
+                for kind in FAULT_KINDS:
                     cands.append((sc, i, kind, obs["req_keys"][i]))
     rng.shuffle(cands)
-    cands = cands[: 300 if tier == "quick" else 4000]
+    cands = cands[: 450 if tier == "quick" else 5000]
     scs = [dict(sc, faults=[{"req": i, "kind": kind}]) for sc, i, kind, _ in cands]
     outs = vlib.run_harness("phase", scs)
     terms, idx = [], []
